@@ -215,6 +215,10 @@ func oracle(c Case) *ev.Verdict {
 	if e := string(ex1); len(e) > 0 && len(e) < 200 {
 		probes = append(probes, "x"+e+"x", e+e, e+" ", " "+e, e[:len(e)-1])
 	}
+	long := len(ex1) > 2000 // (a pattern of a thousand repetitions is compiled at every registration: fewer of them)
+	if long && len(probes) > 3 {
+		probes = append(probes[:1], probes[len(probes)-2:]...)
+	}
 	for i, p := range probes {
 		if !utf8.ValidString(p) {
 			continue
@@ -251,8 +255,8 @@ func oracle(c Case) *ev.Verdict {
 		// the same question with the type reached in other ways: through another type only (the root text
 		// never names @r), as an alternative of an or rule, as the item of an array of a referenced type
 		for k, u := range typeUses(string(lit)) {
-			if (k+i+len(s))%2 == 1 && i > 0 {
-				continue // (every way is taken by about half of the probes)
+			if (k+i+len(s))%2 == 1 && i > 0 || long || (k >= 4 && i > 1 && i < len(probes)-2) {
+				continue // (every way is taken by about half of the probes; the union ways by the first and last two)
 			}
 			root := jschema.New("@main", u.root)
 			var errs []*sut.ErrInfo
@@ -264,6 +268,9 @@ func oracle(c Case) *ev.Verdict {
 						errs = append(errs, sut.Describe(root.AddType("@r", regex.New("@r", s))))
 					} else if u.mid != "" {
 						errs = append(errs, sut.Describe(root.AddType("@mid", jschema.New("@mid", u.mid))))
+						if strings.Contains(u.mid, "@zz9") {
+							errs = append(errs, sut.Describe(root.AddType("@zz9", regex.New("@zz9", "/^zz9$/"))))
+						}
 					}
 				}
 				if (i+k)%2 == 0 {
@@ -292,7 +299,7 @@ func oracle(c Case) *ev.Verdict {
 				ev.Excluded("all", "type use skipped: the type's own generated example does not match its anchored pattern")
 				return nil
 			}
-			if (chkErr == nil) != re.MatchString(p) {
+			if want := re.MatchString(p) || (strings.Contains(u.mid, "@zz9") && p == "zz9"); (chkErr == nil) != want {
 				return ev.V("type-use:verdict:"+u.name, "root %s, @mid = %s, @r = %s: Check()=%v, pattern matches=%v", u.root, u.mid, s, chkErr, re.MatchString(p))
 			}
 			if chkErr == nil && (exErr != nil || !json.Valid(example)) {
@@ -315,6 +322,9 @@ func typeUses(lit string) []typeUse {
 		{"through-type-item", "[\n  @mid\n]", "{\n  \"k\": [\n    " + lit + " // {type: \"@r\"}\n  ]\n}"},
 		{"or-alternative", lit + ` // {or: ["integer", "@r"]}`, ""},
 		{"through-type-or", "{\n  \"c\": @mid // {optional: true}\n}", lit + ` // {or: ["@r", "boolean"]}`},
+		// a union type (another regex type first) behind ONE type rule: the string has to match some member
+		{"through-union", lit + ` // {type: "@mid"}`, "@zz9 | @r"},
+		{"through-union-property", "{\n  \"u\": " + lit + " // {type: \"@mid\"}\n}", "@r | @zz9"},
 	}
 }
 
@@ -499,6 +509,7 @@ func judged(c Case) *ev.Verdict {
 func registerAll() {
 	ev.Register("strings", watched(oracle))
 	ev.Register("patterns", watched(judged))
+	ev.Register("long-examples", watched(oracle))
 }
 
 func TestPropPatterns(t *testing.T) {
@@ -523,6 +534,31 @@ func TestPropPatterns(t *testing.T) {
 		probes := rapid.SliceOfN(rapid.SampledFrom([]string{"", "a", "b", "ab", "aZ0", "/", `\`, "a/b", "x@#", "7-7", " "}), 0, 3).Draw(t, "probes")
 		return Case{Text: s, Probes: probes}
 	}, watched(judged))
+}
+
+// patterns whose shortest match is thousands of bytes long (mandatory repetition; Go allows counts up to 1000):
+// the whole oracle - the example has to match, the schema used as a type judges strings around the example
+func TestPropLongExamples(t *testing.T) {
+	registerAll()
+	ev.KeepFirst("long-examples")
+	var n, bad int64
+	for i, p := range []string{"^(?:abcde){100}$", "^(?:abcde){819}$", "^(?:abcde){820}$", "(?:abcde){1000}", "^(?:[0-9a-f]{4}:){1000}$", `^(?:\x{20AC}\x{20AC}){700}$`, "(?:ab){1000}(?:cd){1000}(?:ef){1000}"} {
+		if !ev.Mine(i) {
+			continue
+		}
+		c := Case{Text: "/" + p + "/", Probes: []string{"abcde"}}
+		n++
+		ev.NonTrivial("long-examples", p)
+		if v := watched(oracle)(c); v != nil && ev.Report("long-examples", c, v) {
+			bad++
+		}
+	}
+	ev.Count("long-examples", n)
+	ev.Sample("long-examples", Case{Text: "/^(?:abcde){820}$/"})
+	ev.Exhaustive("long-examples", "7 patterns with shortest matches of 500 ... 6000 bytes")
+	if bad > 0 {
+		t.Errorf("VIOLATION-CANDIDATE long-examples: %d", bad)
+	}
 }
 
 func TestPropRegressions(t *testing.T) {
